@@ -373,6 +373,92 @@ theorem gate_surface_dl (f : TransFns Rat) (step : State Rat → State Rat) (n :
   letI := ratOps f
   exact dl_charge_neutral f s'.env grams area qs qdl _ hg h0 hA rfl (gate_rows step n s s' h _ hr).1
 
+/-! ## 6b. diffuse-layer composition: Donnan approximation (`calc_psi_avg`, `calc_all_donnan`) -/
+
+/-- **donnan_charge_neutral**.  The quantity `calc_psi_avg` drives to zero is `surf_chrg_eq` plus the charge of the
+participating ions inside the Donnan volume.  So at a root (`fd = 0`) the diffuse layer holds exactly
+`−surf_chrg_eq = −A·f_sinh·sinh(F·ψ/2RT)/F`: the Donnan layer balances the Gouy–Chapman charge at the reported ψ;
+within `ε` when `|fd| ≤ ε` -/
+theorem donnan_charge_neutral (f : TransFns Rat) (sq ratio eps : Rat) (oc : Bool) (groups : List (Rat × Rat)) (p : Rat) :
+    letI := ratOps f
+    (-eps ≤ (donnanFd sq ratio oc groups p).1 ∧ (donnanFd sq ratio oc groups p).1 ≤ eps) →
+      (-eps ≤ donnanCharge sq ratio oc f.exp groups p + sq ∧ donnanCharge sq ratio oc f.exp groups p + sq ≤ eps) := by
+  intro h
+  have e := donnanFd_fst_acc f sq ratio oc groups p sq 0
+  simp only [donnanFd, NumOps.lit, NumOps.ofRat, id_eq] at h
+  simp only [NumOps.lit, NumOps.ofRat, id_eq] at e
+  rw [e] at h
+  grind
+
+theorem donnan_charge_neutral_exact (f : TransFns Rat) (sq ratio : Rat) (oc : Bool) (groups : List (Rat × Rat)) (p : Rat) :
+    letI := ratOps f
+    (donnanFd sq ratio oc groups p).1 = 0 → donnanCharge sq ratio oc f.exp groups p = -sq := by
+  intro h
+  have := donnan_charge_neutral f sq ratio 0 oc groups p (by constructor <;> simp [h])
+  grind
+
+/-- **Boltzmann factor**.  The Donnan excess factor `g(z) = ratio·(exp(cd_m·z·p) − 1)` means: concentration in the
+layer / concentration in the free solution `= (g + ratio)/ratio = exp(cd_m·z·p)` — it depends on the charge number only -/
+theorem donnan_boltzmann (f : TransFns Rat) (ratio cdm z p : Rat) (hr : ratio ≠ 0) :
+    letI := ratOps f
+    (donnanBoltz ratio cdm z p + ratio) / ratio = f.exp (cdm * z * p) := by
+  simp only [donnanBoltz, NumOps.lit, NumOps.ofRat, id_eq, NumOps.exp]
+  have e : (ratOps f).fns.exp (cdm * z * p) = f.exp (cdm * z * p) := rfl
+  rw [e]; grind
+
+/-- for any `exp` that turns sums into products: the enrichment of charge `z₁+z₂` is the product of the enrichments,
+and a neutral species is not enriched (`g(0) = 0`) -/
+theorem donnan_boltzmann_mul (f : TransFns Rat) (ratio cdm z1 z2 p : Rat) (hr : ratio ≠ 0)
+    (hexp : ∀ a b, f.exp (a + b) = f.exp a * f.exp b) (h0 : f.exp 0 = 1) :
+    letI := ratOps f
+    (donnanBoltz ratio cdm (z1 + z2) p + ratio) / ratio
+        = ((donnanBoltz ratio cdm z1 p + ratio) / ratio) * ((donnanBoltz ratio cdm z2 p + ratio) / ratio) ∧
+    donnanBoltz ratio cdm 0 p = 0 := by
+  have a := donnan_boltzmann f ratio cdm (z1 + z2) p hr
+  have b := donnan_boltzmann f ratio cdm z1 p hr
+  have c := donnan_boltzmann f ratio cdm z2 p hr
+  constructor
+  · rw [a, b, c]
+    have : cdm * (z1 + z2) * p = cdm * z1 * p + cdm * z2 * p := by grind
+    rw [this, hexp]
+  · simp only [donnanBoltz, NumOps.lit, NumOps.ofRat, id_eq, NumOps.exp]
+    have e : (ratOps f).fns.exp (cdm * 0 * p) = f.exp 0 := by
+      have : cdm * 0 * p = 0 := by grind
+      rw [this]; rfl
+    rw [e, h0]; grind
+
+/-- what `calc_all_donnan` stores is the Boltzmann value unless it is clipped, and the clipping keeps the content of
+the layer positive: `g + ratio ≥ G_TOL·1e-3 > 0` (no negative concentrations in the layer) -/
+theorem donnanG_content_pos (f : TransFns Rat) (sq ratio gtol cdm z p : Rat) (oc : Bool) (hg : 0 < gtol) :
+    letI := ratOps f
+    0 < donnanG sq ratio gtol cdm oc z p + ratio ∧
+    (¬ (oc = true ∧ 0 < sq * z) → -ratio < donnanBoltz ratio cdm z p →
+      donnanG sq ratio gtol cdm oc z p = donnanBoltz ratio cdm z p) := by
+  simp only [donnanG, donnanBoltz, NumOps.lit, NumOps.ofRat, id_eq]
+  constructor
+  · by_cases h1 : (oc = true ∧ 0 < sq * z) <;> simp only [h1, if_true, if_false] <;> split <;> grind
+  · intro h1 h2
+    simp only [h1, if_false]
+    split <;> grind
+
+/-- charge carried into the layer by one species: `z·g_moles = (z·moles·erm)·(g + ratio)` — summing over the species of
+one charge number gives `eq_z·(g(z) + ratio)`, the term of `donnanCharge` -/
+theorem dl_species_charge (f : TransFns Rat) (z moles erm g ratio : Rat) :
+    letI := ratOps f
+    z * gMoles moles erm g ratio = (z * moles * erm) * (g + ratio) := by
+  simp only [gMoles]; grind
+
+/-- `k_calc` returns the tabulated `log_k` at 25 °C and follows van 't Hoff elsewhere (no analytic expression):
+`log K(T) = log K₀ − ΔH·(298.15 − T)/(ln10·R·T·298.15)` -/
+theorem kCalc_vant_hoff (f : TransFns Rat) (k0 dh tk : Rat) :
+    letI := ratOps f
+    kCalc [k0, dh, 0, 0, 0, 0, 0, 0] tk = k0 - dh * (29815 / 100 - tk) / (f.ln 10 * (tk * (83147 / 10000000)) * (29815 / 100)) ∧
+    kCalc [k0, dh, 0, 0, 0, 0, 0, 0] (29815 / 100) = k0 := by
+  simp only [kCalc, LOG_10, R_KJ_DEG_MOL, NumOps.lit, NumOps.ln, NumOps.log10, NumOps.ofRat, id_eq]
+  have e : (ratOps f).fns.ln 10 = f.ln 10 := rfl
+  rw [e]
+  constructor <;> grind
+
 /-! ## 7. activity convention of surface species -/
 
 /-- `moles = 10^lm` and `lg = log10(equiv/sites)`: the log activity `lm + lg` the mass-action law speaks about is the
@@ -439,5 +525,20 @@ example : letI := ratOps toyFns;
   decide +kernel
 -- constant capacitance
 example : letI := ratOps toyFns; ccmSigma (12 / 10 : Rat) (5 / 100) = 6 / 100 := by decide +kernel
+
+-- Donnan layer: 1:1 electrolyte, the root of calc_psi_avg's function and the charge it puts into the layer
+example : letI := ratOps toyFns;
+    (donnanFd (1 / 1000 : Rat) (1 / 10) false [(1, 1 / 100), (0, 0), (-1, -(1 / 100))] (1 / 2)).1 = 0 ∧
+    donnanCharge (1 / 1000) (1 / 10) false toyFns.exp [(1, 1 / 100), (0, 0), (-1, -(1 / 100))] (1 / 2) = -(1 / 1000) := by
+  decide +kernel
+-- -only_counter_ions leaves the co-ion group out and clips its factor to -ratio + G_TOL/1000
+example : letI := ratOps toyFns;
+    donnanG (1 / 1000 : Rat) (1 / 10) (1 / 1000000000) (-1) true 1 (1 / 2) = -(1 / 10) + 1 / 1000000000000 ∧
+    donnanG (1 / 1000 : Rat) (1 / 10) (1 / 1000000000) (-1) true (-1) (1 / 2) = donnanBoltz (1 / 10) (-1) (-1) (1 / 2) := by
+  decide +kernel
+-- an `exp` with exp(a+b) = exp a · exp b exists on Rat (hypothesis of donnan_boltzmann_mul is satisfiable)
+example : ∃ f : TransFns Rat, (∀ a b, f.exp (a + b) = f.exp a * f.exp b) ∧ f.exp 0 = 1 :=
+  ⟨{ toyFns with exp := fun _ => 1 }, by intro a b; show (1 : Rat) = 1 * 1; decide +kernel, rfl⟩
+example : letI := ratOps toyFns; kCalc [(729 / 100 : Rat), 10, 0, 0, 0, 0, 0, 0] (29815 / 100) = 729 / 100 := by decide +kernel
 
 end PhreeqcVerif.Surface
